@@ -7,6 +7,7 @@ CONSTANTS
   InitSeq <- LInit
   InitTok <- LInitTok
   InitRaw = {}
+  SubOf <- LSub
   HasLF0 = TRUE
   HasAT0 = FALSE
   Slack = 2
